@@ -1,6 +1,7 @@
 package rules
 
 import (
+	"go/constant"
 	"fmt"
 	"go/token"
 	"go/types"
@@ -91,6 +92,187 @@ func newSenderCtx(w *core.World, r *core.Report) *senderCtx {
 		return nil
 	}
 	return c
+}
+
+// The sender closures take (wrap in a transaction, update the checkpoint, offset): as three
+// parameters, or as one struct with two boolean fields and an int64 field in that order.
+
+// reqFields: the field indices of the three roles when the batch sender takes a struct.
+func (c *senderCtx) reqFields() ([3]int, *ssa.Parameter, bool) {
+	var out [3]int
+	if len(c.once.Params) != 1 {
+		return out, nil, false
+	}
+	st, ok := c.once.Params[0].Type().Underlying().(*types.Struct)
+	if !ok {
+		return out, nil, false
+	}
+	nb, haveOff := 0, false
+	for i := 0; i < st.NumFields(); i++ {
+		b, isB := st.Field(i).Type().Underlying().(*types.Basic)
+		if !isB {
+			continue
+		}
+		switch {
+		case b.Kind() == types.Bool && nb < 2:
+			out[nb] = i
+			nb++
+		case b.Kind() == types.Int64 && !haveOff:
+			out[2] = i
+			haveOff = true
+		}
+	}
+	return out, c.once.Params[0], nb == 2 && haveOff
+}
+
+// onceRole: a value standing for role k (0 wrap, 1 update, 2 offset) inside the batch sender:
+// the parameter, or a read of the struct parameter's field (all reads of one field agree on a path).
+func (c *senderCtx) onceRole(k int) ssa.Value {
+	if len(c.once.Params) >= 3 {
+		return c.once.Params[k]
+	}
+	idx, par, ok := c.reqFields()
+	if !ok {
+		return nil
+	}
+	for _, in := range core.OwnInstrs(c.once) {
+		if f, isF := in.(*ssa.Field); isF && f.X == ssa.Value(par) && f.Field == idx[k] {
+			return f
+		}
+		// or a read through the local variable the parameter was copied into
+		if ld, isLd := in.(*ssa.UnOp); isLd && ld.Op == token.MUL {
+			if fa, isFa := ld.X.(*ssa.FieldAddr); isFa && fa.Field == idx[k] && spillOf(fa.X) == ssa.Value(par) {
+				return ld
+			}
+		}
+	}
+	return nil
+}
+
+// spillOf: the parameter whose copy the local variable a holds (its only whole store), or nil.
+func spillOf(a ssa.Value) ssa.Value {
+	al, ok := a.(*ssa.Alloc)
+	if !ok {
+		return nil
+	}
+	var src ssa.Value
+	for _, r := range *al.Referrers() {
+		if st, isSt := r.(*ssa.Store); isSt && st.Addr == ssa.Value(al) {
+			if src != nil {
+				return nil
+			}
+			src = st.Val
+		}
+	}
+	if _, isP := src.(*ssa.Parameter); isP {
+		return src
+	}
+	return nil
+}
+
+// flushArgsAt: what a call of the sender hands over for the three roles.
+func (c *senderCtx) flushArgsAt(s core.Site) (args [3]ssa.Value, ok bool) {
+	a := s.Common().Args
+	if len(a) >= 3 {
+		return [3]ssa.Value{a[len(a)-3], a[len(a)-2], a[len(a)-1]}, true
+	}
+	idx, _, isStruct := c.reqFields()
+	if !isStruct || len(a) != 1 {
+		return args, false
+	}
+	for k := 0; k < 3; k++ {
+		v := structFieldAt(a[0], idx[k])
+		if v == nil {
+			return args, false
+		}
+		args[k] = v
+	}
+	return args, true
+}
+
+// structFieldAt: the value field idx has in the struct value v built by a composite literal
+// (the stored value, or the zero value when the literal leaves the field out).
+func structFieldAt(v ssa.Value, idx int) ssa.Value {
+	ld, ok := core.Unwrap(v).(*ssa.UnOp)
+	if !ok || ld.Op != token.MUL {
+		return nil
+	}
+	al, ok := ld.X.(*ssa.Alloc)
+	if !ok {
+		return nil
+	}
+	st, ok := al.Type().Underlying().(*types.Pointer).Elem().Underlying().(*types.Struct)
+	if !ok || idx >= st.NumFields() {
+		return nil
+	}
+	var val ssa.Value
+	for _, ref := range *al.Referrers() {
+		fa, isFa := ref.(*ssa.FieldAddr)
+		if !isFa || fa.Field != idx {
+			continue
+		}
+		for _, rr := range *fa.Referrers() {
+			if sto, isSt := rr.(*ssa.Store); isSt && sto.Addr == ssa.Value(fa) {
+				if val != nil {
+					return nil // assigned more than once: not a plain literal
+				}
+				val = sto.Val
+			}
+		}
+	}
+	if val == nil {
+		return zeroConst(st.Field(idx).Type())
+	}
+	return val
+}
+
+func zeroConst(t types.Type) ssa.Value {
+	if b, ok := t.Underlying().(*types.Basic); ok {
+		switch {
+		case b.Info()&types.IsBoolean != 0:
+			return ssa.NewConst(constant.MakeBool(false), t)
+		case b.Info()&types.IsInteger != 0:
+			return ssa.NewConst(constant.MakeInt64(0), t)
+		case b.Info()&types.IsString != 0:
+			return ssa.NewConst(constant.MakeString(""), t)
+		}
+	}
+	return nil
+}
+
+// structFieldSources: where field idx of the struct parameter par comes from: at every call of its
+// function, the literal's field value, or the same field of a struct parameter handed on.
+func structFieldSources(root *ssa.Function, par *ssa.Parameter, idx int, depth int) (vals []ssa.Value, at []*ssa.BasicBlock) {
+	if depth > 3 {
+		return nil, nil
+	}
+	f := par.Parent()
+	k := -1
+	for i, q := range f.Params {
+		if q == par {
+			k = i
+		}
+	}
+	for _, g := range core.DeepFuncs(root) {
+		for _, s := range core.Sites(g, false) {
+			if s.Callee != f || s.Instr.Parent() != g {
+				continue
+			}
+			a := s.Common().Args
+			if k >= len(a) {
+				continue
+			}
+			if q, isPar := core.Unwrap(a[k]).(*ssa.Parameter); isPar {
+				v2, a2 := structFieldSources(root, q, idx, depth+1)
+				vals, at = append(vals, v2...), append(at, a2...)
+				continue
+			}
+			if v := structFieldAt(a[k], idx); v != nil {
+				vals, at = append(vals, v), append(at, s.Instr.Block())
+			}
+		}
+	}
+	return vals, at
 }
 
 func (c *senderCtx) isItem(p *core.Path) func(ssa.Value) bool {
@@ -267,8 +449,32 @@ func negReachG(w *core.World, root *ssa.Function, v ssa.Value, at *ssa.BasicBloc
 			*origins = append(*origins, x)
 		}
 		return out
+	case *ssa.Field:
+		// a field of a struct parameter: what the callers put there
+		if par, isPar := x.X.(*ssa.Parameter); isPar {
+			vals, ats := structFieldSources(root, par, x.Field, 0)
+			if len(vals) > 0 {
+				var out []string
+				for i, sv := range vals {
+					out = append(out, negReach(w, root, sv, ats[i], seen, origins)...)
+				}
+				return out
+			}
+		}
 	case *ssa.UnOp:
 		if x.Op == token.MUL {
+			if fa, isFa := x.X.(*ssa.FieldAddr); isFa {
+				if par, isPar := spillOf(fa.X).(*ssa.Parameter); isPar {
+					vals, ats := structFieldSources(root, par, fa.Field, 0)
+					if len(vals) > 0 {
+						var out []string
+						for i, sv := range vals {
+							out = append(out, negReach(w, root, sv, ats[i], seen, origins)...)
+						}
+						return out
+					}
+				}
+			}
 			if c := core.Cell(x.X); c != nil {
 				var out []string
 				for _, st := range core.CellStores(c) {
@@ -554,12 +760,12 @@ func ruleOvershoot(w *core.World, r *core.Report, c *senderCtx, onlyBarrierKinds
 				res[cons] = v
 			}
 			v.seen++
-			args := s.Common().Args
-			if len(args) < 3 {
-				v.bad = "sender called with fewer than 3 arguments"
+			fa, okArgs := c.flushArgsAt(s)
+			if !okArgs {
+				v.bad = "the sender's call does not hand over (wrap, update checkpoint, offset) in a recognised form"
 				return
 			}
-			if !c.isCurOffset(p, args[len(args)-1]) {
+			if !c.isCurOffset(p, fa[2]) {
 				return
 			}
 			if appended {
@@ -629,10 +835,7 @@ func ruleBatchOrder(w *core.World, r *core.Report, c *senderCtx, txn bool) {
 	if len(once.Blocks) == 0 {
 		return
 	}
-	var inTxn *ssa.Parameter
-	if len(once.Params) >= 1 {
-		inTxn = once.Params[0]
-	}
+	inTxn := c.onceRole(0)
 	if inTxn == nil || !types.Identical(inTxn.Type().Underlying(), types.Typ[types.Bool]) {
 		r.Unresolved("sendFuncOnce/shouldInTransaction", "first parameter of the batch sender is not the in-transaction flag")
 		return
@@ -756,8 +959,8 @@ func ruleBatchOrder(w *core.World, r *core.Report, c *senderCtx, txn bool) {
 		}
 		// when the path updates the checkpoint on the target, the offset write must be present
 		upd := false
-		if len(once.Params) >= 2 {
-			if v, ok := p.Eval(once.Params[1]); ok && v {
+		if updV := c.onceRole(1); updV != nil {
+			if v, ok := p.Eval(updV); ok && v {
 				upd = true
 			}
 		}
@@ -1511,11 +1714,11 @@ func ruleTxnFlushWrapped(w *core.World, r *core.Report, c *senderCtx) {
 		}
 		c.sendCalls(p, func(s core.Site, _ bool, _ int) {
 			n++
-			args := s.Common().Args
-			if len(args) < 3 || bad != "" {
+			fa, okArgs := c.flushArgsAt(s)
+			if !okArgs || bad != "" {
 				return
 			}
-			v, known := p.Eval(args[len(args)-3])
+			v, known := p.Eval(fa[0])
 			if known && v {
 				return
 			}
